@@ -31,16 +31,11 @@ pub fn generate_keep_alive() -> u64 {
 
 /// Generates a new RSA keypair.
 fn generate_keypair() -> Result<(RsaPrivateKey, RsaPublicKey), Error> {
-    #[cfg(passage_verif)]
-    if let Some(seed) = crate::verif::rng::key_seed() {
-        let mut rng = UnwrapErr(crate::verif::rng::DetRng::new(seed));
-        let private_key = RsaPrivateKey::new(&mut rng, 1024)?;
-        let public_key = RsaPublicKey::from(&private_key);
-        return Ok((private_key, public_key));
-    }
-
     // retrieve a new mutable instance of an OS RNG
+    #[cfg(not(passage_verif))]
     let mut rng = UnwrapErr(SysRng);
+    #[cfg(passage_verif)]
+    let mut rng = UnwrapErr(crate::verif::rng::KeyRng::new());
 
     // generate the corresponding key pair
     let private_key = RsaPrivateKey::new(&mut rng, 1024)?;
@@ -70,13 +65,11 @@ pub fn decrypt(key: &RsaPrivateKey, value: &[u8]) -> Result<Vec<u8>, Error> {
 
 /// Generates a random [`VerifyToken`].
 pub fn generate_token() -> Result<VerifyToken, Error> {
-    #[cfg(passage_verif)]
-    if let Some(token) = crate::verif::rng::next_token() {
-        return Ok(token);
-    }
-
     // retrieve a new mutable instance of an OS RNG
+    #[cfg(not(passage_verif))]
     let mut rng = SysRng;
+    #[cfg(passage_verif)]
+    let mut rng = crate::verif::rng::TokenRng;
 
     // populate the random bytes
     let mut data = [0u8; 32];
